@@ -273,6 +273,8 @@ one_call (int ci)
             if (n > (munmap_failed ? 1 : 0) || (n == 1 && maps != 1))
               why = "library-made block or mapping still live after the call";
           }
+        if (!why && c->ep != 2 && vh_bad_free)
+          why = "the library released (free/munmap) a range that is not exactly one it obtained during the call";
         if (!why && c->ep == 2)
           {
             /* caller's pair must stay sound: NULL or a live block */
